@@ -289,6 +289,7 @@ class DescriptorTransaction(_TransactionBase):
         """
         proc = TransactionResult()
         if self.descriptor_updates:
+            self._check_deleted_subtrees_untouched()
             self._mdib.mdib_version = self.new_mdib_version
             # need to know all to be deleted and to be created descriptors
             to_be_deleted_handles = [tr_item.old.Handle for tr_item in self.descriptor_updates.values()
@@ -356,6 +357,26 @@ class DescriptorTransaction(_TransactionBase):
                 updates = self._handle_state_updates(updates_dict)
                 dest_list.extend(updates)
         return proc
+
+    def _check_deleted_subtrees_untouched(self):
+        """Raise ApiUsageError if something is created or updated inside a sub-tree that this transaction deletes.
+
+        Deleting a descriptor deletes its whole sub-tree; a descriptor or state that is written into that sub-tree by
+        the same transaction would stay in the mdib without parent resp. without descriptor.
+        Called before anything is changed, so that the rejected transaction has no effect.
+        """
+        deleted_handles = set()
+        for tr_item in self.descriptor_updates.values():
+            if tr_item.new is None and tr_item.old is not None:
+                deleted_handles.update(d.Handle for d in self._mdib.get_all_descriptors_in_subtree(tr_item.old))
+        if not deleted_handles:
+            return
+        for tr_item in self.descriptor_updates.values():
+            if tr_item.new is not None and (tr_item.new.Handle in deleted_handles
+                                            or tr_item.new.parent_handle in deleted_handles):
+                msg = (f'Descriptor {tr_item.new.Handle} is created or updated inside a sub-tree '
+                       f'that is deleted by the same transaction!')
+                raise ApiUsageError(msg)
 
     def _update_corresponding_state(self, descriptor_container: AbstractDescriptorProtocol):
         updates_dict = self._get_states_update(descriptor_container)
